@@ -747,7 +747,7 @@ fn main() {
 }
 
 fn c14(args: &Args, report: &Arc<Mutex<Report>>, wd: &Watchdog) {
-    let n = args.share(12_000, 2_000_000);
+    let n = args.share(12_000, 8_000_000);
     let seed = args.worker_seed();
     let mut shells: Vec<Option<Box<dyn Shell>>> = (0..6).map(|_| None).collect();
     for case_no in 0..n {
@@ -1018,7 +1018,7 @@ mod caplab_c16 {
     const REDIRECT_CODES: [u16; 5] = [301, 302, 303, 307, 308];
 
     pub fn run(args: &Args, report: &Arc<Mutex<Report>>, wd: &Watchdog) {
-        let n = args.share(6_000, 1_000_000);
+        let n = args.share(6_000, 16_000_000);
         let seed = args.worker_seed();
         let mut shell: Option<Box<dyn Shell>> = None;
         for case_no in 0..n {
